@@ -10,7 +10,7 @@ from .common import Run, Machinery
 
 BASE = {"NV": 2, "NU": 0, "NL": 2, "NLaw": 0, "Kinds": {"D", "U", "T"}, "UseN": False,
         "MaxEnds": 2, "MaxArg": 2, "Fams": {"link", "expl"}, "InitBV": 2, "InitBU": 0,
-        "UniEnds": False, "DoEmit": True, "OnlyOps": set()}
+        "UniEnds": False, "DoEmit": True, "OnlyOps": set(), "AllowNone": True}
 
 MODEL_INVARIANTS = ["InvType", "InvLinkSym", "InvNoDupLinks", "InvUniSym", "InvNoDupMembers",
                     "InvNoDupUnis", "InvLawsSym"]
